@@ -27,6 +27,9 @@ def space(tier, seed):
         orders.append({'keys': keys, 'desc': False})
         orders.append({'keys': keys, 'desc': False, 'asc_explicit': True})
         orders.append({'keys': keys, 'desc': True})
+    # numeric keys: with 10+ records (the 17-record table) numeric order differs from the order of the printed numbers
+    orders.append({'keys': [('NR',)], 'desc': True})
+    orders.append({'keys': [F('a', 2), ('arith', '*', ('NR',), ('int', 3))], 'desc': True})
     distincts = [None, 'distinct', 'count']
     maxrows = 4 if tier == 'thorough' else 3
     bounds = [None]
@@ -261,7 +264,7 @@ def main(tier, seed):
     shards += [{'part': 'B', 'tier': tier, 'seed': seed, 'lo': lo, 'hi': hi} for lo, hi in core.chunks(len(ls['qs']), 32)]
     res = core.run_shards('vf.checks.c02', shards)
     return core.finish(PID, tier, seed, res, t0,
-        rule='A: 4 base lists x 13 ORDER BY forms x {none, DISTINCT, DISTINCT COUNT} x bounds n=0..|T|+1 (TOP/LIMIT) x {plain, WHERE, JOIN with duplicate keys, UNNEST} x all tables up to the row bound over '
+        rule='A: 4 base lists x 15 ORDER BY forms x {none, DISTINCT, DISTINCT COUNT} x bounds n=0..|T|+1 (TOP/LIMIT) x {plain, WHERE, JOIN with duplicate keys, UNNEST} x all tables up to the row bound over '
              '{k1,k2}x{k1,k2}; B: every bounded non-buffering query over every cyclic (unbounded) replay of every table <= 3 rows with a pull-counting iterator; '
              'non-trivial = ties in the sort key, duplicates actually removed, or n smaller than the unbounded result (A) / bound reached exactly (B)',
         assumptions=['sort keys are mutually comparable strings', 'RefQL models a bounded streaming query as stopping at the bound', 'B: cases whose n-th output never appears are skipped (the query legitimately waits)'],
